@@ -664,15 +664,6 @@ Fixpoint catchup (fuel : nat) (r : rs) (me : actor) : rs :=
   | S f => let '(r', moved) := catchup_round r me in if moved then catchup f r' me else r'
   end.
 
-Definition starts_with (p : yp) (l : list yp) : bool := match l with q :: _ => yp_eqb p q | [] => false end.
-
-(* what thread t would show next if it took choice c now: post points, then the pre points of its next step *)
-Definition next_points (r : rs) (key t c : nat) : option (list yp) :=
-  match thread_step r key t c with
-  | Some r' => Some (lst_of (alookup (AThread key) (owed r')) ++ lst_of (alookup (AThread key) (pre_left r')))
-  | None => None
-  end.
-
 (* consume passage p of actor a from what it owes *)
 Definition consume (r : rs) (a : actor) (p : yp) : option rs :=
   match lst_of (alookup a (owed r)) with
